@@ -177,6 +177,8 @@ class _Gen:
         k = r.choice(cands)
         if k == "noop":
             return {"op": "noop"}
+        if k == "toggle_nonblock":
+            return {"op": "toggle_nonblock"}
         if k == "send":
             t = r.choice((0, 0.01, 1.5, None))
             st = {"op": "send", "on": inputs[-1]["id"] if r.random() < 0.8 else r.choice(inputs)["id"], "timeout": t,
@@ -252,6 +254,10 @@ def gen_plan(seed, tier, index=0, avoid=()):
         for _ in range(rng.choice((1, 1, 2, 3))):
             kind = rng.choice(("Input", "Input", "FullscreenWindow", "CursorAwareWindow", "Cbreak", "Nonblocking", "Termmode"))
             tree.append(g.node(kind, [], 0))
+    if rng.random() < 0.25:
+        # between two uses the application itself flips O_NONBLOCK on the stream (only outside every context:
+        # what a context should restore when the flag is changed under it is not defined)
+        tree.insert(rng.randint(0, len(tree)), {"op": "toggle_nonblock"})
     if rng.random() < 0.3 and tree:
         after = [g.node(rng.choice(("Input", "Input", "Cbreak", "Nonblocking", "CursorAwareWindow")), [], 0)]
         if rng.random() < 0.5 and any(n.get("ctx") == "Input" for n in tree):
@@ -265,7 +271,10 @@ def gen_plan(seed, tier, index=0, avoid=()):
     if rng.random() < 0.3:
         flags |= _os.O_APPEND
     cfg = {"h": h, "w": w, "tty_attrs": _rand_attrs(rng), "tty_flags": flags,
-           "sigint_initial": rng.choice(("default", "default", "custom", "ign")),
+           "sigint_initial": rng.choice(("default", "default", "custom", "ign", "dfl")),
+           "platform": "darwin" if rng.random() < 0.1 else "linux",
+           "keynames_enum": rng.random() < 0.3,
+           "construct_early": rng.random() < 0.3,
            "wakeup_initial": ("wakeup_initial" not in avoid) and rng.random() < 0.25,
            "app_main": rng.random() < 0.8,
            "pre_lines": rng.randint(0, h),
@@ -346,6 +355,11 @@ def _simp(p):
             cur[path[-1]:path[-1] + 1] = it["body"]      # unwrap: keep the body, drop the context
             yield q
     c = p["cfg"]
+    for key, simple in (("platform", "linux"), ("keynames_enum", False), ("construct_early", False)):
+        if c.get(key, simple) != simple:
+            q = planmod.clone(p)
+            q["cfg"][key] = simple
+            yield q
     for key, simple in (("sigint_initial", "default"), ("wakeup_initial", False), ("app_main", True),
                         ("tty_flags", _os.O_RDWR), ("pre_lines", 0)):
         if c[key] != simple:
@@ -594,7 +608,12 @@ class _Exec:
             return self.objs[node["id"]]
         a = node.get("args") or {}
         if kind == "Input":
-            o = Input(in_stream=s.inp, keynames=a["keynames"], paste_threshold=a["paste_threshold"],
+            kn = a["keynames"]
+            if self.p["cfg"].get("keynames_enum"):
+                from curtsies import events as _ev
+                if hasattr(_ev, "Keynames"):
+                    kn = {"bytes": _ev.Keynames.BYTES, "curtsies": _ev.Keynames.CURTSIES, "curses": _ev.Keynames.CURSES}[kn]
+            o = Input(in_stream=s.inp, keynames=kn, paste_threshold=a["paste_threshold"],
                       sigint_event=a["sigint_event"], disable_terminal_start_stop=a["disable_terminal_start_stop"])
             if a["sigint_event"]:
                 self.world.probe("sigint_event_true")
@@ -694,6 +713,13 @@ class _Exec:
         op = it["op"]
         if op == "noop":
             return
+        if op == "toggle_nonblock":
+            # the application itself flips O_NONBLOCK on the stream (contexts must restore what THEY changed,
+            # relative to what they found when they were entered)
+            kernel.set_blocking(s.fd, bool(s.tty.flags & _os.O_NONBLOCK))
+            self.toggles = getattr(self, "toggles", 0) + 1
+            world.probe("app_toggled_nonblock")
+            return
         if op == "render":
             win = self.objs[it["on"]]
             win.render_to_terminal(gen.build_array(it["rows"], False, self.term.w), tuple(it["cursor"]))
@@ -712,12 +738,14 @@ class _Exec:
                 fds0 = set(kernel.open_fds())
                 if it["kind"] == "threadsafe":
                     cb = inp.threadsafe_event_trigger(_Ev)
-                    self.trigger_fds |= set(kernel.open_fds()) - fds0
-                    world.probe("trigger_pipe_created")
                 elif it["kind"] == "event":
                     cb = inp.event_trigger(_Ev)
                 else:
                     cb = inp.scheduled_event_trigger(events.ScheduledEvent)
+                new = set(kernel.open_fds()) - fds0
+                if new:          # descriptors a trigger factory opens belong to the Input object, whichever factory
+                    self.trigger_fds |= new
+                    world.probe("trigger_pipe_created")
                 self.callbacks[key] = cb
             if it["call"]:
                 if it["kind"] == "scheduled":
@@ -824,7 +852,8 @@ def _name(h):
 def _run_one(p, keep_log):
     cfg = p["cfg"]
     s = setup.make({"h": cfg["h"], "w": cfg["w"], "tty_attrs": cfg["tty_attrs"], "tty_flags": cfg["tty_flags"],
-                    "yield_cap": 500000, "out_buffer": cfg.get("out_buffer", "none")}, None, keep_log)
+                    "yield_cap": 500000, "out_buffer": cfg.get("out_buffer", "none"),
+                    "platform": cfg.get("platform")}, None, keep_log)
     world, term, kernel = s.world, s.term, s.kernel
     res = {"violation": None, "error": None, "probes": world.probes, "faults": world.faults,
            "states": set(), "nsteps": 0, "info": {"blocked_sends": [], "reading_sends": []}}
@@ -837,6 +866,8 @@ def _run_one(p, keep_log):
             world.probe("custom_sigint_handler")
         elif cfg["sigint_initial"] == "ign":
             kernel.sig.handlers[_signal.SIGINT] = _signal.SIG_IGN
+        elif cfg["sigint_initial"] == "dfl":
+            kernel.sig.handlers[_signal.SIGINT] = _signal.SIG_DFL
         if not cfg["app_main"]:
             world.probe("non_main_thread")
         if cfg["wakeup_initial"]:
@@ -848,6 +879,13 @@ def _run_one(p, keep_log):
         if cfg["tty_flags"] & _os.O_NONBLOCK:
             world.probe("initial_nonblock_set")
         ex = _Exec(p, s, res)
+        if cfg.get("construct_early"):
+            # objects are created up-front and entered later (state captured in a constructor goes stale)
+            def early(it, stack, is_ctx):
+                if is_ctx and it["ctx"] not in ("Try", "TermmodeOf", "FullscreenWindow"):
+                    ex.construct(it)
+            _walk(p["tree"], early)
+            world.probe("constructed_early")
         first = ex.snap()
         def drive():
             try:
@@ -894,6 +932,8 @@ def _run_one(p, keep_log):
         if not res["violation"] and not res["error"]:
             last = ex.snap()
             last["fds"] = [fd for fd in last["fds"] if fd not in ex.kept_fds]
+            if getattr(ex, "toggles", 0) % 2:
+                first = dict(first, flags=first["flags"] ^ _os.O_NONBLOCK)      # (the application's own doing)
             for key in ("attrs", "flags", "wakeup_fd", "fds", "cursor_visible", "active"):
                 if last[key] != first[key]:
                     _violate(res, "final_state_differs_" + key, ex.point, {"before": first[key], "after": last[key]})
